@@ -130,6 +130,7 @@ PHASES = {
     "C19": [
         {"pkg": "e1", "test": "TestC19Topics", "phase": "C19/topics-store"},
         {"pkg": "e1", "test": "TestC19Subs", "phase": "C19/subscription-index"},
+        {"pkg": "e1", "test": "TestC19SessionTopics", "phase": "C19/session-topic-list"},
     ],
 }
 
